@@ -31,6 +31,8 @@ def run(ctx):
     ctx.each(r06i, ctx, repo)
     ctx.each(r06k, ctx, repo)
     ctx.each(r06l, ctx, repo)
+    ctx.each(r06m, ctx, repo)
+    ctx.each(r06n, ctx, repo)
     from . import c04
 
     ctx.each(c04.r04e, ctx, repo)  # parameters at the first index are functions of the post-flush sizes
@@ -306,7 +308,10 @@ def skip_tables(ctx, repo):
             tables["Parameter.update (scalar)"] = (frozenset({"<lo", "=lo", "mid", "=hi", ">hi"}) - skipped, node, pu)
             found += 1
     if found != 2:
-        raise AnalysisError("R06e: vector and scalar skip-window tests not both found in Parameter.update (found %d)" % found)
+        # another spelling of the two branches (no np.where, window unpacked into locals, chained comparison): R06n decides them by truth table
+        tables.pop("Parameter.update (vector)", None)
+        tables.pop("Parameter.update (scalar)", None)
+        ctx.note("R06e", "Parameter.update: skip-window branches not in the np.where / if-return spelling; decided by R06n")
     up = repo.func("model", "Model.update_pars")
     ume = K.self_name(up)
     for node in own_nodes(up.node):
@@ -674,3 +679,75 @@ def r06l(ctx, repo):
         n += 1
         ctx.check(fresh, "R06l", fi, s_, "`%s` stores a fresh series" % ast.unparse(s_)[:70], "`%s` stores an object that was not created by this statement: populations (or the parameter set and the databook) share one series, so editing one of them changes the others" % ast.unparse(s_)[:90])
     ctx.require(n >= 5, "R06l: expected >= 5 per-population stores in ParameterSet.__init__, found %d" % n)
+
+
+def r06m(ctx, repo):
+    from ..core import boolx as B
+    from ..core.cfg import branch_guards
+
+    ctx.rule("R06m", "every function parameter that drives a transition is evaluated before it is used: Parameter.set_dynamic leaves with exactly one of the two flags set - `_is_dynamic` (evaluated every step) or `_precompute` (evaluated before the run) - whenever the parameter has a function: the final `if not self._is_dynamic: self._precompute = True` is reached on every path that does not return early (it is not nested under the dependency test, so a function of time alone is precomputed too), and the early return fires only for parameters without a function or already flagged")
+    sd = repo.func("model", "Parameter.set_dynamic")
+    me = sd.params[0]
+    pre = [s_ for s_ in own_nodes(sd.node) if isinstance(s_, ast.Assign) and ast.unparse(s_.targets[0]) == "%s._precompute" % me]
+    ok = len(pre) == 1 and isinstance(pre[0].value, ast.Constant) and pre[0].value.value is True
+    if ok:
+        g = B.cond(branch_guards(pre[0], stop=sd.node))
+        ok = B.equivalent(g, B.parse_cond("not %s._is_dynamic" % me))
+        cfg = K.cfg(repo, sd)
+        # the enclosing if is a top-level statement of the function, after the dependency loop
+        top = pre[0]
+        while getattr(top, "_parent", None) is not sd.node:
+            top = top._parent
+        ok = ok and isinstance(top, ast.If) and top is sd.node.body[-1]
+    ctx.check(ok, "R06m", sd, pre[0] if pre else sd.node, "not dynamic => precomputed, decided last and unconditionally", "Parameter.set_dynamic does not end with `if not %s._is_dynamic: %s._precompute = True` at the top level of the function: a function parameter that is neither dynamic nor precomputed (e.g. a function of `t` only when the flag is set under `if self.deps`) is only evaluated after the run, while junctions and links read it during the run (NaN, or the stale databook value)" % (me, me), stmt_text="precompute-decision")
+    rets = [r for r in own_nodes(sd.node) if isinstance(r, ast.Return)]
+    okr = len(rets) == 1 and B.equivalent(B.cond(branch_guards(rets[0], stop=sd.node)), B.parse_cond("%s.fcn_str is None or %s._is_dynamic or %s._precompute" % (me, me, me)))
+    ctx.check(okr, "R06m", sd, rets[0] if rets else sd.node, "early return only without a function or when already flagged", "Parameter.set_dynamic returns early under another condition than `fcn_str is None or _is_dynamic or _precompute`: some function parameters are never flagged", stmt_text="early-return")
+
+
+def r06n(ctx, repo):
+    from ..core import boolx as B
+    from ..core.cfg import branch_guards
+
+    ctx.rule("R06n", "a suspended function stays suspended on the whole closed window: in Parameter.update the vector branch keeps exactly the indices with t < skip_function[0] or t > skip_function[1], and the scalar branch returns exactly when skip_function[0] <= t <= skip_function[1] - the two are complements of each other, so a step-by-step evaluation and a vector evaluation skip the same years (the first overwrite year included)")
+    fi = repo.func("model", "Parameter.update")
+    me = fi.params[0]
+    env = {}
+    for s_ in own_nodes(fi.node):
+        if isinstance(s_, ast.Assign) and isinstance(s_.targets[0], ast.Tuple) and ast.unparse(s_.value) == "%s.skip_function" % me and len(s_.targets[0].elts) == 2:
+            env[s_.targets[0].elts[0].id] = "%s.skip_function[0]" % me
+            env[s_.targets[0].elts[1].id] = "%s.skip_function[1]" % me
+
+    def canon(e):
+        t = ast.unparse(e)
+        import re
+
+        for k, v in env.items():
+            t = re.sub(r"\b%s\b" % k, v, t)
+        return t
+
+    t_ = "%s.t[ti]" % me
+    lo, hi = "%s.skip_function[0]" % me, "%s.skip_function[1]" % me
+    # scalar branch: the return that is guarded by comparisons of self.t[ti] with the window (not the `ti.size == 0` return)
+    rets = [r for r in own_nodes(fi.node) if isinstance(r, ast.Return) and any("skip" in canon(t) and "size" not in canon(t) and t_ in canon(t) for t, p in branch_guards(r, stop=fi.node))]
+    ok = len(rets) == 1
+    if ok:
+        gs = [(ast.parse(canon(t), mode="eval").body, p) for t, p in branch_guards(rets[0], stop=fi.node) if t_ in canon(t)]
+        got = B.cond(gs)
+        want = B.parse_cond("not (%s < %s) and not (%s > %s)" % (t_, lo, t_, hi))
+        # express >= as not <, <= as not >
+        ok = B.equivalent(got, want)
+    ctx.check(ok, "R06n", fi, rets[0] if rets else fi.node, "scalar evaluation skipped exactly on [start, stop]", "the scalar branch of Parameter.update does not return exactly when skip_function[0] <= t <= skip_function[1]: the function is evaluated again at a boundary year of the window and overwrites the scenario value for that step", stmt_text="skip-scalar")
+    masks = [s_ for s_ in own_nodes(fi.node) if isinstance(s_, ast.Assign) and astq.is_name(s_.targets[0], "ti") and isinstance(s_.value, ast.Subscript) and "skip" in canon(s_.value)]
+    okv = len(masks) == 1
+    if okv:
+        m = masks[0].value.slice
+        if isinstance(m, ast.Call) and ast.unparse(m.func) == "np.where" and m.args:
+            m = m.args[0]
+        mt = canon(m).replace("|", " or ").replace("&", " and ")
+        try:
+            got = B.parse_cond(mt)
+            okv = B.equivalent(got, B.parse_cond("(%s < %s) or (%s > %s)" % (t_, lo, t_, hi)))
+        except SyntaxError:
+            okv = False
+    ctx.check(okv, "R06n", fi, masks[0] if masks else fi.node, "vector evaluation keeps exactly the years outside [start, stop]", "the vector branch of Parameter.update does not keep exactly the indices with t < skip_function[0] or t > skip_function[1]", stmt_text="skip-vector")
